@@ -2,6 +2,7 @@ package main
 
 import (
 	"fmt"
+	"go/constant"
 	"go/token"
 	"go/types"
 	"sort"
@@ -922,20 +923,25 @@ func c09r6(p *Prog, r *Reporter) {
 			if !ok {
 				continue
 			}
-			bo, ok := atom.(*ssa.BinOp)
-			if !ok || (bo.Op != token.GEQ && bo.Op != token.GTR && bo.Op != token.EQL) {
-				continue
+			// on the non-panicking edge `length < K` (or <= K-1) must be known, in any comparison shape; K must be MaskTotalBits
+			isLength := func(v ssa.Value) bool {
+				_, fld, _, isF := loadedField(v)
+				return isF && fld == "length"
 			}
-			_, fld, _, isF := loadedField(stripConv(bo.X))
-			c, isC := bo.Y.(*ssa.Const)
-			if !isF || fld != "length" || !isC || !p.panicOnly(b.Succs[trueSucc]) {
-				continue
+			for k := range b.Succs {
+				if !p.panicOnly(b.Succs[1-k]) || p.panicOnly(b.Succs[k]) {
+					continue
+				}
+				rel, c, ok2 := boundOnEdge(atom, k == trueSucc, isLength)
+				if !ok2 {
+					continue
+				}
+				found = true
+				wantN := mtbInt(cst)
+				okv := impliesAtMost(rel, c, wantN-1) && !impliesAtMost(rel, c, wantN-2)
+				r.Check(okv, p.FuncName(fn), "exhaustion guard constant", p.Pos(posOf(b.Instrs[len(b.Instrs)-1])),
+					fmt.Sprintf("on the non-panicking edge `length %s %d` is known; MaskTotalBits %s", rel, c, want))
 			}
-			found = true
-			got := c.Value.ExactString()
-			okv := got == want && bo.Op == token.GEQ || bo.Op == token.EQL && got == want
-			r.Check(okv, p.FuncName(fn), "exhaustion guard constant", p.Pos(bo.Pos()),
-				fmt.Sprintf("guard `length %s %s` panics; MaskTotalBits %s", bo.Op, got, want))
 		}
 	}
 	if !found {
@@ -1008,4 +1014,9 @@ func c09r7(p *Prog, r *Reporter) {
 			r.add(o.Func, o.Construct, o.Pos, o.Status, o.Detail, o.Nontrivial)
 		}
 	}
+}
+
+func mtbInt(c *types.Const) int64 {
+	v, _ := constant.Int64Val(c.Val())
+	return v
 }
